@@ -59,7 +59,32 @@ def untuple(x):
     return x
 
 
+def departure_script(rng):
+    """A client that is connected to several namespaces is lost while an
+    observer watches every one of them; the disconnect handlers tell the
+    room, in two emits each, that the client left."""
+    served = NAMESPACES[:rng.choice([2, 3])]
+    cfg = S.default_config(
+        serializer=rng.choice(['default', 'msgpack']),
+        async_handlers=rng.random() < 0.3, always_connect=False,
+        served=served, namespaces_opt=None,
+        style={ns: 'func' for ns in served}, global_catchall=False,
+        coroutines=True, connect_script={}, returns={}, faults=[])
+    cfg['disconnect_emits'] = ROOMS[0]
+    ops = [['open', 1], ['open', 2]]
+    for ns in served:
+        ops.append(['connect', 1, ns, None])
+        ops.append(['enter', ['sid', 1, ns], ROOMS[0], ns])
+    for ns in served:
+        ops.append(['connect', 2, ns, None])
+    ops.append([rng.choice(['lose', 'cclose']), 2])
+    ops.append(['emit', 1, ROOMS[0], None, served[0], None, 'after'])
+    return cfg, ops
+
+
 def gen_server_script(rng):
+    if rng.random() < 0.06:
+        return departure_script(rng)
     served = NAMESPACES[:rng.choice([1, 2, 3])]
     serializer = 'msgpack' if rng.random() < 0.25 else 'default'
     nopt = rng.choice([None, None, 'list', '*'])
